@@ -1,4 +1,4 @@
-(* Generated/ArithGen08.v (translator T19) equals the hand model, part F: the dispatch tables _process_mul /
+(* Generated/ArithGen08.v (translators T19, T22) equals the hand model, part F: the dispatch tables _process_mul /
    _process_square, the wrappers generate_mul / generate_square (on the input labels the source builds:
    str(0) .. str(n-1) for Circuit.bare_circuit(n)), and the conjunction that Properties/C08.v states. *)
 Require Import Cirbo.Model.Base Cirbo.Model.Gate Cirbo.Model.Circuit Cirbo.Model.Builder Cirbo.Model.PyPrims.
@@ -7,7 +7,7 @@ Require Import Cirbo.Model.PyPrims08 Cirbo.Model.ArithMul Cirbo.Model.ArithSquar
 Require Import Cirbo.Generated.ArithTables Cirbo.Generated.ArithCells Cirbo.Generated.ArithGen08.
 Require Import Cirbo.Proofs.ArithGenFacts.
 Require Import Cirbo.Proofs.ArithGen09Lib Cirbo.Proofs.ArithGen08Lib Cirbo.Proofs.ArithGen08A Cirbo.Proofs.ArithGen08B
-  Cirbo.Proofs.ArithGen08C Cirbo.Proofs.ArithGen08D Cirbo.Proofs.ArithGen08E.
+  Cirbo.Proofs.ArithGen08C Cirbo.Proofs.ArithGen08D Cirbo.Proofs.ArithGen08E Cirbo.Proofs.ArithGen08W.
 From Coq Require Import ZArith Lia Ascii.
 Open Scope Z_scope.
 
@@ -18,7 +18,7 @@ Proof.
   - apply gen_add_mul_karatsuba_with_efficient_sum_eq.
   - apply gen_add_mul_alter_eq.
   - apply gen_add_mul_dadda_eq.
-  - apply peq_refl.                  (* MulMode.WALLACE: the hand model itself *)
+  - apply gen_add_mul_wallace_eq.
   - apply gen_add_mul_pow2_m1_eq.
 Qed.
 
@@ -76,6 +76,7 @@ Theorem generators_regenerated08 :
   (forall a b be fresh s, run fresh (gen_add_mul_alter a b be) s = run fresh (add_mul_alter a b be) s) /\
   (forall a b be fresh s, run fresh (gen_add_mul_pow2_m1 a b be) s = run fresh (add_mul_pow2_m1 a b be) s) /\
   (forall a b be fresh s, run fresh (gen_add_mul_dadda a b be) s = run fresh (add_mul_dadda a b be) s) /\
+  (forall a b be fresh s, run fresh (gen_add_mul_wallace a b be) s = run fresh (add_mul_wallace a b be) s) /\
   (forall a b be fresh s,
      (length a = 0%nat -> (length b <= 1)%nat) -> (length b = 0%nat -> (length a <= 1)%nat) ->
      run fresh (gen_last_step_sum_with_new_powers_sum a b be) s
@@ -107,6 +108,7 @@ Proof.
   - intros; apply gen_add_mul_alter_eq.
   - intros; apply gen_add_mul_pow2_m1_eq.
   - intros; apply gen_add_mul_dadda_eq.
+  - intros; apply gen_add_mul_wallace_eq.
   - intros a b be fresh s H1 H2; apply gen_last_step_eq; assumption.
   - intros; apply gen_add_mul_karatsuba_eq.
   - intros; apply gen_add_mul_karatsuba_with_efficient_sum_eq.
